@@ -49,7 +49,7 @@ def dispatch (c : Conf) (op : String) (args : List String) (got : String) : Opti
     | some e => C11.handle e c.w op args got
     | none => none) <|> (match c.pc with
     | some e => C12.handle e c.w op args got
-    | none => none) <|> (C06.handle c.w c.cp c.ep op args got)
+    | none => none) <|> (C06.handle c.cp c.ep op args got)
 
 def processLine (c : Conf) (line : String) : String :=
   match line.splitOn " => " with
